@@ -5,7 +5,6 @@ package model
 // specification (DESIGN Appendix A) - not transcribed from the library's
 // internal/strobe.  Validated on start-up by SelfTestMerlin.
 
-
 import "encoding/binary"
 
 // ---- Keccak-f[1600], written from FIPS 202 (lane-wise, loops) ----
